@@ -1,7 +1,7 @@
 (* C18 - Node k-mer iteration obeys the iterator contract.  Statements only. *)
 From Coq Require Import NArith List Bool Arith.
 From DBG Require Import Spec.Dna Packed.KmerModel Packed.DnaStringModel Packed.SliceModel Algo.Iter Algo.NodeIter
-  Proofs.KmerLanes Proofs.NodeIterProofs Proofs.NodeIterAll Spec.GraphIndex Spec.Unitig Spec.CompressSpec Algo.Compress.
+  Proofs.KmerLanes Proofs.NodeIterProofs Proofs.NodeIterAll Proofs.NodeIterClosed Spec.GraphIndex Spec.Unitig Spec.CompressSpec Algo.Compress.
 Import ListNotations.
 Open Scope N_scope.
 
@@ -19,6 +19,22 @@ Theorem C18_iter_refines : forall c, In c shipped -> forall d s l,
   exists it outs, ni_into_iter c d s = Some it /\ ni_size_hint it = length (kmers (kK c) l) /\
     ni_run c d s it calls = Some outs /\ Forall2 (out_matches c) outs (spec_run (kmers (kK c) l) calls).
 Proof. exact iter_refines. Qed.
+
+(* CLOSED form (no container hypothesis): the container IS a DnaStringSlice (any offset, forward or reverse-complemented)
+   into a DnaString satisfying the representation invariant that C14 proves after every history; its get / get_kmer
+   contract is C15_get and C15_get_kmer.  The iterator reports (length - K + 1) items up front. *)
+Theorem C18_iter_refines_slice : forall c, In c shipped -> forall d s, d_inv d ->
+  (s_start s + s_length s <= d_len d)%nat -> (kK c <= s_length s)%nat ->
+  forall calls,
+  exists it outs, ni_into_iter c d s = Some it /\
+    ni_size_hint it = length (kmers (kK c) (sl_view (d_abs d) s)) /\
+    ni_run c d s it calls = Some outs /\
+    Forall2 (out_matches c) outs (spec_run (kmers (kK c) (sl_view (d_abs d) s)) calls).
+Proof. exact iter_refines_slice. Qed.
+Theorem C18_iter_count : forall c, In c shipped -> forall d s, d_inv d ->
+  (s_start s + s_length s <= d_len d)%nat -> (kK c <= s_length s)%nat ->
+  length (kmers (kK c) (sl_view (d_abs d) s)) = (s_length s - kK c + 1)%nat.
+Proof. exact iter_refines_slice_count. Qed.
 
 (* the list iterator: once exhausted, always None *)
 Lemma C18_spec_exhausted : forall (A : Type) calls, Forall (fun o => o = @None A) (spec_run [] calls).
@@ -61,3 +77,5 @@ Print Assumptions C18_iter_refines.
 Print Assumptions C18_all_next.
 Print Assumptions C18_all_nodes_once.
 Print Assumptions C18_skip_clamp.
+Print Assumptions C18_iter_refines_slice.
+Print Assumptions C18_iter_count.
